@@ -80,33 +80,77 @@ def run(pid, tier, seed, mod, args, workdir, t0):
     nworkers = args.workers or min(int(os.environ.get('VERIF_WORKERS', '16')),
                                    max(1, ncases))
     timeout = getattr(mod, 'TIMEOUT', {'quick': 1500, 'thorough': 14400})[tier]
-    procs = []
     outs = []
-    for w in range(nworkers):
-        out = os.path.join(workdir, 'w%d.jsonl' % w)
+    problems = []
+    crashes = []
+    deadline = time.time() + timeout
+
+    def launch(w, resume_after, gen):
+        out = os.path.join(workdir, 'w%d_%d.jsonl' % (w, gen))
         outs.append(out)
         cmd = [sys.executable, '-m', 'rv.worker', pid, tier, str(seed), str(w),
-               str(nworkers), out, '--cases', str(ncases)]
-        err = open(os.path.join(workdir, 'w%d.err' % w), 'w')
-        procs.append((subprocess.Popen(cmd, cwd=HERE, stdout=subprocess.DEVNULL,
-                                       stderr=err), err))
-    problems = []
-    deadline = time.time() + timeout
-    for w, (p, err) in enumerate(procs):
-        try:
-            p.wait(timeout=max(1, deadline - time.time()))
-        except subprocess.TimeoutExpired:
-            p.kill()
-            problems.append('worker %d watchdog fired after %ds' % (w, timeout))
-        err.close()
-        if p.returncode not in (0, None) and p.returncode != -9:
+               str(nworkers), out, '--cases', str(ncases), '--resume-after', str(resume_after)]
+        errp = os.path.join(workdir, 'w%d_%d.err' % (w, gen))
+        err = open(errp, 'w')
+        return [subprocess.Popen(cmd, cwd=HERE, stdout=subprocess.DEVNULL, stderr=err),
+                err, out, errp, gen]
+
+    running = {w: launch(w, -1, 0) for w in range(nworkers)}
+    while running:
+        for w in list(running):
+            p, err, out, errp, gen = running[w]
+            try:
+                p.wait(timeout=0.2)
+            except subprocess.TimeoutExpired:
+                if time.time() > deadline:
+                    p.kill()
+                    err.close()
+                    problems.append('worker %d watchdog fired after %ds' % (w, timeout))
+                    del running[w]
+                continue
+            err.close()
+            del running[w]
+            if p.returncode == 0:
+                continue
             tail = ''
             try:
-                with open(os.path.join(workdir, 'w%d.err' % w)) as f:
-                    tail = f.read()[-1500:]
+                with open(errp) as f_:
+                    tail = f_.read()
             except Exception:
                 pass
-            problems.append('worker %d exited with %s: %s' % (w, p.returncode, tail))
+            if p.returncode < 0 and gen < 40:
+                # native crash: find the case that was running, record it, resume after it
+                last = -1
+                try:
+                    with open(out) as f_:
+                        for line in f_:
+                            try:
+                                rec = json.loads(line)
+                                if not rec.get('_meta'):
+                                    last = max(last, rec.get('idx', -1))
+                            except Exception:
+                                pass
+                except Exception:
+                    pass
+                if last < 0:
+                    prev = [c['idx'] for c in crashes if c['idx'] % nworkers == w]
+                    crashed = (max(prev) + nworkers) if prev else w
+                else:
+                    crashed = last + nworkers
+                where = [ln.strip() for ln in tail.splitlines() if ln.strip().startswith('File')]
+                crashes.append({'idx': crashed, 'status': 'error',
+                                'error': 'native crash (signal %d) in %s'
+                                % (-p.returncode, (where[0] if where else '?')[:120])})
+                if crashed + nworkers < ncases:
+                    running[w] = launch(w, crashed, gen + 1)
+            else:
+                problems.append('worker %d exited with %s: %s' % (w, p.returncode, tail[-1200:]))
+    if len(crashes) > max(3, 0.02 * ncases):
+        problems.append('%d native crashes' % len(crashes))
+    with open(os.path.join(workdir, 'crashes.jsonl'), 'w') as f_:
+        for c in crashes:
+            f_.write(json.dumps(c) + '\n')
+    outs.append(os.path.join(workdir, 'crashes.jsonl'))
     results, metas = read_results(outs)
     return verdict(pid, tier, seed, mod, results, metas, t0, problems,
                    no_evidence=args.no_evidence, expected=ncases)
